@@ -1165,7 +1165,7 @@ matrix_tofile(matrix *self, PyObject *args, PyObject *kwrds)
   if (!PyArg_ParseTupleAndKeywords(args, kwrds, "O:fromfile", kwlist, &f))
     return NULL;
 
-  bytes = PyBytes_FromStringAndSize(self->buffer, E_SIZE[MAT_ID(self)]*MAT_LGT(self));
+  bytes = PyBytes_FromStringAndSize(self->buffer, (Py_ssize_t)E_SIZE[MAT_ID(self)]*MAT_LGT(self));
 
   if (bytes == NULL)
     return NULL;
@@ -1224,7 +1224,7 @@ matrix_fromfile(matrix *self, PyObject *args, PyObject *kwrds)
   if (!PyArg_ParseTupleAndKeywords(args, kwrds, "O:fromfile", kwlist, &f))
     return NULL;
 
-  b = PyObject_CallMethod(f, "read", "n", E_SIZE[self->id]*MAT_LGT(self));
+  b = PyObject_CallMethod(f, "read", "n", (Py_ssize_t)E_SIZE[self->id]*MAT_LGT(self));
   if (b == NULL)
     return NULL;
 
@@ -1235,7 +1235,7 @@ matrix_fromfile(matrix *self, PyObject *args, PyObject *kwrds)
     return NULL;
   }
 
-  if (PyBytes_GET_SIZE(b) != E_SIZE[self->id]*MAT_LGT(self)) {
+  if (PyBytes_GET_SIZE(b) != (Py_ssize_t)E_SIZE[self->id]*MAT_LGT(self)) {
     PyErr_SetString(PyExc_EOFError,
         "read() didn't return enough bytes");
     Py_DECREF(b);
@@ -1244,7 +1244,7 @@ matrix_fromfile(matrix *self, PyObject *args, PyObject *kwrds)
 
   Py_buffer view;
   PyObject_GetBuffer(b, &view, PyBUF_SIMPLE);
-  memcpy(self->buffer, view.buf, E_SIZE[self->id]*MAT_LGT(self));
+  memcpy(self->buffer, view.buf, (size_t)E_SIZE[self->id]*MAT_LGT(self));
 
   PyBuffer_Release(&view);
   Py_DECREF(b);
@@ -1409,7 +1409,7 @@ matrix_buffer_getbuf(matrix *self, Py_buffer *view, int flags)
     view->format = NULL;
 
   if (flags & PyBUF_STRIDES) {
-    view->len = MAT_LGT(self)*E_SIZE[self->id];
+    view->len = (Py_ssize_t)MAT_LGT(self)*E_SIZE[self->id];
     view->itemsize = E_SIZE[self->id];
     self->strides[0] = view->itemsize;
     self->strides[1] = self->nrows*view->itemsize;
